@@ -122,7 +122,7 @@ theorem commit_inv {db : DB} {h : Handle} (hi : DBInv db) (hh : HInv db h) (hw :
         simp only at hg hst
         -- untouched key: the old entry, valid through the old stamp = h.version
         rcases hw.current hf (hc hf) with ⟨hv, hs0⟩ | ⟨S0, hs0, hall0⟩
-        · rw [hi.nostamp hs0] at hg; simp at hg
+        · rw [hi.emptyFast hv] at hg; simp at hg
         · obtain ⟨hwS, hval⟩ := hi.fast S0 hs0 k w val hg
           obtain ⟨p, hpm, hSp⟩ := hi.stampLe S0 hs0
           have h0 : h.version ≠ 0 := by
@@ -161,14 +161,8 @@ theorem commit_inv {db : DB} {h : Handle} (hi : DBInv db) (hh : HInv db h) (hw :
         have := Nat.le_trans hw2 (Nat.le_trans hSp (hle _ hpm))
         exact absurd this (Nat.not_succ_le_self _)
       · exact hval s m hsm hw1 hw2
-  · -- nostamp
-    intro hs
-    by_cases hf : h.fastOpt = true
-    · simp [commitDB, hf] at hs
-    · have hf' : h.fastOpt = false := by simpa using hf
-      simp only [commitDB, hf', Bool.false_eq_true, if_false] at hs
-      simp only [commitDB, hh.nostage hf', applyFast]
-      exact hi.nostamp hs
+  · -- emptyFast
+    intro hv; simp [commitDB] at hv
   · -- stampLe
     intro S hS
     by_cases hf : h.fastOpt = true
@@ -284,7 +278,7 @@ theorem prune_inv {db : DB} {h : Handle} {to : Ver} (hi : DBInv db) (hh : HInv d
     (hv : to < h.version) : DBInv (pruneDB db h to) := by
   have h0 : h.version ≠ 0 := ne_zero_of_lt hv
   have hmem := hh.saved_mem h0
-  refine ⟨?_, ?_, ?_, ?_, hi.nostamp, ?_, ?_⟩
+  refine ⟨?_, ?_, ?_, ?_, ?_, ?_, ?_⟩
   · exact List.Nodup.sublist (List.Sublist.map _ List.filter_sublist) hi.nodup
   · intro p hp; exact hi.pos p ((mem_prune hw).1 hp).1
   · intro s m hsm k w val hg
@@ -293,6 +287,9 @@ theorem prune_inv {db : DB} {h : Handle} {to : Ver} (hi : DBInv db) (hh : HInv d
   · intro S hS k w val hg
     obtain ⟨hwS, hval⟩ := hi.fast S hS k w val hg
     exact ⟨hwS, fun s m hsm => hval s m ((mem_prune hw).1 hsm).1⟩
+  · intro hv'
+    have : (h.version, h.saved) ∈ (pruneDB db h to).vers := (mem_prune hw).2 ⟨hmem, hv⟩
+    rw [hv'] at this; simp at this
   · intro S hS
     obtain ⟨p, hpm, hSp⟩ := hi.stampLe S hS
     by_cases hlt : to < p.1
